@@ -188,7 +188,7 @@ def seq_order(reqs: list, order: list) -> list:
     the head of a split block keeps its identity and its offsets."""
     regid = {ri: k for k, ri in enumerate(order)}
     idx = list(range(len(reqs)))
-    idx.sort(key=lambda i: (reqs[i]["sec"], reqs[i]["blk"], -reqs[i]["off"], -regid[i]))
+    idx.sort(key=lambda i: (reqs[i].get("sec", 0), reqs[i].get("blk", -1), -reqs[i].get("off", 0), -regid[i]))
     return idx
 
 
@@ -203,6 +203,13 @@ def run_sequential(case: dict) -> dict:
     try:
         for ri in seq_order(case["reqs"], order):
             rq = case["reqs"][ri]
+            if rq["op"] == "insall":
+                from gtirb_rewriting import AllBlocksScope, BlockPosition
+                ctx = RewritingContext(r.module, r.functions)
+                ctx.register_insert(AllBlocksScope(BlockPosition.ENTRY), make_patch(rq["patch"], isa))
+                ctx.apply()
+                r.functions = _rebuild_functions(r.module)
+                continue
             b = r.blocks[rq["sec"]][rq["blk"]]
             ctx = RewritingContext(r.module, r.functions)
             if rq["op"] in ("ins", "rep"):
@@ -243,6 +250,7 @@ def run_case(case: dict, sink=None, sequential: bool = False) -> dict:
     exc = ""
     stage = "register"
     expensive = case.get("expensive_assertions", True)
+    insfn_rec = {"name": "", "patch": EMPTY_PATCH}
     fault = None
     if case.get("fault"):
         fault = {"n": 0, "at": int(case["fault"]), "kind": case.get("fault_kind", "raise")}
@@ -251,6 +259,20 @@ def run_case(case: dict, sink=None, sequential: bool = False) -> dict:
         ctx = RewritingContext(r.module, r.functions, expensive_assertions=expensive)
         for reg_id, ri in enumerate(order):
             rq = reqs_in[ri]
+            if rq["op"] == "insall":
+                # register_insert(AllBlocksScope(ENTRY), patch): one registration,
+                # one insertion at offset 0 of every code block
+                from gtirb_rewriting import AllBlocksScope, BlockPosition
+                ps = rq["patch"]
+                pcontent = assemble_standalone(shape, ps)
+                ctx.register_insert(AllBlocksScope(BlockPosition.ENTRY), make_patch(ps, isa, ctxlog, fault))
+                for si, blocks in enumerate(r.blocks):
+                    for blk in blocks:
+                        if isinstance(blk, gtirb.CodeBlock):
+                            trace_reqs.append({"id": reg_id, "op": "ins", "u": proj.uid(blk), "off": 0,
+                                               "len": 0, "proxy": False, "patch": pcontent,
+                                               "pk": ps.get("kind", "")})
+                continue
             b = r.blocks[rq["sec"]][rq["blk"]]
             rec = {"id": reg_id, "op": rq["op"], "u": proj.uid(b), "off": rq["off"],
                    "len": rq.get("len", 0), "proxy": bool(rq.get("proxy", False)),
@@ -271,6 +293,10 @@ def run_case(case: dict, sink=None, sequential: bool = False) -> dict:
             else:
                 ctx.delete_at(b, rq["off"], rq["len"], retarget_to_proxy=rec["proxy"])
             trace_reqs.append(rec)
+        if case.get("insfn", "none") not in ("none", ""):
+            fnspec = {"kind": case["insfn"], "k": 77}
+            insfn_rec = {"name": "newfn", "patch": assemble_standalone(shape, fnspec)}
+            ctx.register_insert_function("newfn", make_patch(fnspec, isa, ctxlog, fault))
         stage = "apply"
         observer = None
         if case.get("observe"):
@@ -308,7 +334,7 @@ def run_case(case: dict, sink=None, sequential: bool = False) -> dict:
     return {**extra, "id": case["id"], "pre": pre, "reqs": trace_reqs, "post": post,
             "exc": exc, "stage": stage, "nfun": len(r.functions),
             "isa": isa, "fmt": shape.get("fmt", "elf"), "whole": whole,
-            "fault": int(case.get("fault", 0)), "ninv": len(ctxlog)}
+            "fault": int(case.get("fault", 0)), "ninv": len(ctxlog), "insfn": insfn_rec}
 
 
 def run_det(case: dict) -> dict:
